@@ -16,7 +16,8 @@
 From Coq Require Import List Bool Arith Lia.
 From Omega Require Import L4.Arena L4.Kleene L4.InitSpec.
 From OmegaGen Require Import FixpointGen Gr1Gen TransducerGen.
-From OmegaGP Require Import InitProofs TransducerModel StreettNB2 ConstructionSucceeds RabinSucceeds.
+From OmegaGP Require Import InitProofs TransducerModel StreettNB2 ConstructionSucceeds RabinSucceeds
+  RealizableLift.
 
 Section C03.
 Variables nc nx ny : nat.
@@ -34,6 +35,7 @@ Proof. exact (is_realizable_spec nc nx ny env_init sys_init plus_one). Qed.
 Theorem C03_valid_means_everywhere : forall u,
   valid nc nx ny u = true <-> forall v, inr nc nx ny v -> u v = true.
 Proof. exact (valid_iff nc nx ny). Qed.
+Print Assumptions C03_valid_means_everywhere.
 
 (* synthesized initial condition: exactly the form's predicate conjoined with
    the internal-memory initial value *)
@@ -137,6 +139,65 @@ Proof.
            fuel H G Hf Sh Sg HnG HnH Hg Hh).
 Qed.
 
+(* The hypotheses of the two theorems above speak of the verdict on the arena
+   EXTENDED with the memory (ny * M component values, lifted initial
+   conditions and region), which is how the translated constructions are laid
+   out.  In gr1.py `assert is_realizable(winning, aut)` runs BEFORE the memory
+   variables are declared, and a user calls gr1.is_realizable on the BASE
+   arena.  The verdict is the same (all four qinit forms, both causality
+   modes, any number M > 0 of memory values): *)
+Theorem C03_verdict_independent_of_memory :
+  forall nc nx ny M (EI SI : bdd) plus_one qinit fuel fuel' (win : bdd),
+  0 < M ->
+  let L := lift nc nx ny M in
+  Gr1Gen.is_realizable nc nx (ny * M) (L EI) (L SI) plus_one qinit fuel (L win) =
+  Gr1Gen.is_realizable nc nx ny EI SI plus_one qinit fuel' win.
+Proof.
+  intros nc nx ny M EI SI plus_one qinit fuel fuel' win HM L.
+  exact (is_realizable_lift nc nx ny M HM EI SI plus_one qinit fuel fuel' win).
+Qed.
+
+(* ... so the constructions succeed whenever the verdict THE USER SEES (base
+   arena) is true and the winning region is non-empty *)
+Theorem C03_streett_construction_succeeds_base :
+  forall nc nx ny (E S EI SI : bdd) (holds goals : list bdd) (moore plus_one : bool)
+         qinit fuel G,
+  NV nc nx ny <= fuel -> Forall spred holds -> Forall spred goals ->
+  0 < G -> length goals <= G -> 0 < length goals ->
+  let sol := Gr1Gen.solve_streett_game nc nx ny E S holds goals moore plus_one fuel in
+  let z := fst (fst sol) in
+  let L := lift nc nx ny G in
+  Gr1Gen.is_realizable nc nx ny EI SI plus_one qinit fuel z = Some true ->   (* base arena *)
+  (exists c x yb, c < nc /\ x < nx /\ yb < ny /\ z (sv c x yb) = true) ->
+  StreettGen.make_streett_transducer nc nx ny G (L E) (L S) (L EI) (L SI)
+    (map L holds) (map L goals) moore plus_one qinit fuel
+    (L z) (map (map L) (snd (fst sol))) (map (map (map L)) (snd sol)) <> None.
+Proof.
+  intros nc nx ny E S EI SI holds goals moore plus_one qinit fuel G Hf Sh Sg HG HnG Hg sol z L.
+  exact (streett_construction_succeeds_base nc nx ny E S EI SI holds goals moore plus_one qinit
+           fuel Hf Sh Sg Hg G HG HnG).
+Qed.
+
+Theorem C03_rabin_construction_succeeds_base :
+  forall nc nx ny (E S EI SI : bdd) (holds goals : list bdd) (moore plus_one : bool)
+         qinit fuel H G,
+  NV nc nx ny <= fuel -> Forall spred holds -> Forall spred goals ->
+  length goals <= G -> length holds < H -> 0 < length goals -> 0 < length holds ->
+  let sol := Gr1Gen.solve_rabin_game nc nx ny E S holds goals moore plus_one fuel in
+  let zk := fst (fst sol) in
+  let L := lift nc nx ny (H * G) in
+  Gr1Gen.is_realizable nc nx ny EI SI plus_one qinit fuel (last zk bfalse) = Some true ->   (* base arena *)
+  (exists c x yb, c < nc /\ x < nx /\ yb < ny /\ last zk bfalse (sv c x yb) = true) ->
+  RabinGen.make_rabin_transducer nc nx ny H G (L E) (L S) (L EI) (L SI)
+    (map L holds) (map L goals) moore plus_one qinit fuel
+    (map L zk) (map (map L) (snd (fst sol))) (map (map (map (map L))) (snd sol)) <> None.
+Proof.
+  intros nc nx ny E S EI SI holds goals moore plus_one qinit fuel H G
+         Hf Sh Sg HnG HnH Hg Hh sol zk L.
+  exact (rabin_construction_succeeds_base nc nx ny E S EI SI holds goals moore plus_one qinit
+           fuel Hf Sh Sg Hg H G HnG HnH Hh).
+Qed.
+
 Print Assumptions C03_verdict_exact.
 Print Assumptions C03_init_exact.
 Print Assumptions C03_init_refused_iff_empty.
@@ -145,3 +206,6 @@ Print Assumptions C03_init_sound_exists_forall.
 Print Assumptions C03_init_succeeds.
 Print Assumptions C03_streett_construction_succeeds.
 Print Assumptions C03_rabin_construction_succeeds.
+Print Assumptions C03_verdict_independent_of_memory.
+Print Assumptions C03_streett_construction_succeeds_base.
+Print Assumptions C03_rabin_construction_succeeds_base.
